@@ -832,6 +832,34 @@ func ruleListingIncludesOwn(c *Check, rule string) {
 		c.Ok(rule, name+"/listing-independent-of-own", fmt.Sprintf("%d writes of lastSeenByInstance / hasSnapshots / the per-instance map happen before (independently of) any test of includingOwn or ownInstance", n), c.P.Pos(fn.Pos()))
 	}
 	c.Floor(rule, n, 3, "listing result writes in Receiver.RunOnce")
+	// every listing is published: a successful RunOnce has replaced lastSeenByInstance
+	// and hasSnapshots (no short-cut for "the listing looks like the previous one":
+	// MarkCorrupt changes what must be reported without changing the listing)
+	nOK, badp := 0, 0
+	for i := range paths {
+		p := &paths[i]
+		if !retIsNilErr(p) {
+			continue
+		}
+		nOK++
+		seenMap, seenHas := false, false
+		for _, e := range p.Events {
+			if e.Kind == "store" && strings.HasSuffix(e.Addr, ".lastSeenByInstance") {
+				seenMap = true
+			}
+			if e.Kind == "store" && strings.HasSuffix(e.Addr, ".hasSnapshots") {
+				seenHas = true
+			}
+		}
+		if !seenMap || !seenHas {
+			badp++
+			c.Bad(rule, name+"/listing-published", "RunOnce returns successfully without replacing lastSeenByInstance / hasSnapshots from this listing: a snapshot marked corrupt since the previous poll keeps being reported as its instance's newest, the older decodable one is never offered and the instance never leaves SeenInstances()", c.pathPos(p), describe(c, p))
+		}
+	}
+	if badp == 0 {
+		c.Ok(rule, name+"/listing-published", fmt.Sprintf("all %d successful ends of RunOnce have stored the freshly built per-instance map and hasSnapshots", nOK), c.P.Pos(fn.Pos()))
+	}
+	c.Floor(rule, nOK, 1, "successful ends of Receiver.RunOnce")
 }
 
 // ruleLoadErrReturned: LoadOnce returns the transaction's error (C18-R2b).
